@@ -562,6 +562,14 @@ TRANSFORMS = {
     "sort-down": "m@>m", "each": "{x*2}'m", "negate": "-m", "floor": "_m", "split": ",/2:#m",
     "scan": "+\\m", "first-rest": "(*m),1_m", "self-times": "m*m",
     "reshape-wildcard": ",/sh:^m", "reshape-wildcard-matrix": ",/sh2:^mm", "reshape-wildcard-join": ",/sh:^m,m",
+    # non-parameter variables read through VIEWS (an element indexed out of a tensor, Take, First) and
+    # consumed by folds / Iterate — an in-place `-=` / `/=` on such a view changes the variable (torch)
+    "iterate-count-variable": "n{x*2}:*m", "iterate-count-indexed": "(cfg@0){x*2}:*m",
+    "iterate-count-first": "(*cfg){x+1}:*m", "iterate-count-sum": "(+/cfg){x+1}:*m",
+    "divide-over": "%/s", "divide-over-take": "%/2#s", "divide-over-index": "%/s@[0 1]", "divide-over-matrix": "%/mm",
+    "minus-over": "-/s", "times-over": "*/s", "max-over": "|/s", "min-over": "&/s", "plus-over-matrix": "+/mm",
+    "divide-scan": "%\\s", "minus-scan": "-\\s",
+    "element-arith": "((s@0)+1),((*s)%2),(n+1)", "take-one-arith": "(1#s)-1", "each-pair": "-:'s",
 }
 for _n, _t in TRANSFORMS.items():
     SOURCE_BODIES["global:" + _n] = ("{c07s::+/" + _t + ";(+/w*w)+(b*b)+c07s}", "{c07s::+/" + _t + ";(+/x*x)+c07s}")
@@ -597,6 +605,9 @@ def _source_interp(case):
     klong("e::2.718")
     klong("sh::[-1 1]")
     klong("sh2::[2 -1]")
+    klong("cfg::[2 3]")
+    klong("n::cfg@0")            # on torch: a 0-d tensor indexed out of cfg
+    klong("s::[8.0 2.0 2.0]")
     spec = SOURCE_BODIES[case["body"]]
     nil, mon = spec[0], spec[1]
     for extra in (spec[2] if len(spec) > 2 else []):
